@@ -117,7 +117,7 @@ example : stripBom ([0xEF, 0xBB, 0xBF] ++ asciiBytes "# coding: latin-1\n".toLis
       some (asciiBytes "# coding: latin-1\n".toList) ∧
     sniff (asciiBytes "# coding: latin-1\n".toList) = some latin1Name ∧ latin1Name ≠ utf8Name := by decide +kernel
 
-/- OPEN (finding F-C18-bom-alias): the full-strength statement is
+/- OPEN (finding F-C18-1): the full-strength statement is
      `decodeRawStream env (.bytes b) raw known = .error (.bomConflict n)  ↔  env.codecOf n ≠ env.codecOf utf8Name`
    ("a BOM *contradicted* by the comment").  The code compares the comment with the literal `"utf-8"`, so an alias
    of utf-8 (`UTF-8`, `utf8`, `utf_8`) in the comment is reported as a conflict although it agrees with the BOM. -/
@@ -295,7 +295,7 @@ example : AsciiCompatible utf8Codec ∧
 -- non-vacuity of the weak law: it follows from the strict one, e.g. for utf-8
 example : AsciiPrefix utf8Codec := asciiPrefix_of_asciiCompatible _ utf8_asciiCompatible
 
-/- OPEN (finding F-C18-sniff-ignore): the full-strength statement is `bytes_compile_as_text` without `HeaderOk`.
+/- OPEN (finding F-C18-2): the full-strength statement is `bytes_compile_as_text` without `HeaderOk`.
    `decode_raw_stream` looks for the comment in `text.decode("utf-8", "ignore")`, which *drops* bytes that are not
    UTF-8: a `#…coding:` that is not at the start of the text moves to the start when the bytes before it are dropped,
    and non-ASCII characters next to the encoding name are dropped from it or merged into it. -/
@@ -372,7 +372,7 @@ example : IsCodecName latin1Name ∧ env0.codecOf latin1Name = some latin1Codec 
 example : AsciiPrefix latin1Codec ∧ RoundTrip latin1Codec :=
   ⟨asciiPrefix_of_asciiCompatible _ latin1_asciiCompatible, latin1_roundTrip⟩
 
-/- OPEN (finding F-C18-module-filename): `module_file_written` needs *every* payload character to be encodable.  The
+/- OPEN (finding F-C18-4): `module_file_written` needs *every* payload character to be encodable.  The
    characters of the template are (they were decoded from that codec), but `_template_filename = %r` and
    `_template_uri = %r` put the file name and the uri into the module as well, and those are not restricted to the
    template's codec: the full statement "a template that compiles in memory compiles into a module file" fails. -/
@@ -400,7 +400,7 @@ example : stripBom [104, 0xC3, 0xA9] = none ∧
     decodeRawStream env0 (.bytes [104, 0xC3, 0xA9]) true none = .ok (utf8Name, .str "hé".toList) := by
   decide +kernel
 
-/- OPEN (finding F-C18-source-bom): without the guard.  `ModuleInfo.source` decodes the *original* bytes, BOM
+/- OPEN (finding F-C18-3): without the guard.  `ModuleInfo.source` decodes the *original* bytes, BOM
    included, so the source of a template with a BOM starts with U+FEFF, which the text the lexer compiled does not. -/
 
 /-- the model (like the code): `Template.source` of BOM + `hi` is U+FEFF `hi`, the compiled text is `hi` -/
